@@ -302,6 +302,26 @@ def gen_cases(rng, tier):
     return ops
 
 
+def decode_node_check():
+    """a hexary node READ FROM THE DATABASE (decode_node of its record) classifies as what was written - the blank node's
+    record rlp(b"") = 0x80 included"""
+    import rlp
+    from trie.utils import nodes as ND
+    from trie.utils.nodes import compute_leaf_key, compute_extension_key
+    shapes = [(b"", 0), ([compute_leaf_key([1, 2]), b"v" * 40], 1), ([compute_extension_key([3]), b"h" * 32], 2),
+              ([b""] * 16 + [b"val"], 3), ([[compute_leaf_key([]), b"x"]] + [b""] * 15 + [b""], 3)]
+    for node, ty in shapes:
+        rec = rlp.encode(node)
+        try:
+            back = ND.decode_node(rec)
+            got = ND.get_node_type(back)
+        except Exception as e:
+            return f"decode_node of the stored record of a node of type {ty} raised {type(e).__name__}: {e}"
+        if got != ty or back != node:
+            return f"decode_node of the stored record of a node of type {ty} gives type {got}"
+    return None
+
+
 def parse_or_exc(ND, node):
     try:
         return ND.parse_node(node)
@@ -320,6 +340,9 @@ def check(tier, seed):
     R.gate = C.proof_gate("C16")
     rng = random.Random(seed)
     ops = gen_cases(rng, tier)
+    dn = decode_node_check()
+    if dn:
+        R.spec_violations.append((dn, {"op": ["decode_node"]}))
     terms = []
     for op in ops:
         out = run_impl(op)
